@@ -91,23 +91,23 @@ SameBag(a, b) ==
 PosTies(e) == \E i, j \in 1..Len(e.ch) : i # j /\ e.ch[i].e.pos = e.ch[j].e.pos
 
 \* C16 / C01: the fields reflect exactly the tree's children, attributes, optionality, multiplicity and text
+ReflectsElem(e, fs, opts) ==
+  LET ex == ExpectedFields(e, opts)
+  IN SameBag([i \in 1..Len(fs) |-> Shape(fs[i])], [i \in 1..Len(ex) |-> ShapeOfExpected(ex[i])])
 ReflectTags(tree, opts, ss) ==
   LET es == StructElems(tree, opts)
   IN IF \E k \in 1..Len(ss) : ss[k].name = StringTy THEN {}     \* a struct named String: SHADOW (C04) subsumes
      ELSE IF Len(es) # Len(ss) THEN {"STRUCT_COUNT"}
-     ELSE IF \E k \in 1..Len(ss) :
-                ~SameBag([i \in 1..Len(ss[k].fields) |-> Shape(ss[k].fields[i])],
-                         [i \in 1..Len(ExpectedFields(es[k], opts)) |-> ShapeOfExpected(ExpectedFields(es[k], opts)[i])])
-          THEN {"FIELDS_DIFFER"} ELSE {}
+     ELSE IF \E k \in 1..Len(ss) : ~ReflectsElem(es[k], ss[k].fields, opts) THEN {"FIELDS_DIFFER"} ELSE {}
 
 \* C09: attributes, text, children, each group in the demanded order; structs in pre-order of that order
+OrderedElem(e, fs, opts) ==
+  LET ex == ExpectedFields(e, opts)
+  IN [i \in 1..Len(fs) |-> Bound(fs[i])] = [i \in 1..Len(ex) |-> ex[i].bound]
 OrderTags(tree, opts, ss) ==
   LET es == StructElems(tree, opts)
   IN IF Len(es) # Len(ss) THEN {"STRUCT_COUNT"}
-     ELSE IF \E k \in 1..Len(ss) :
-                /\ ~PosTies(es[k])
-                /\ [i \in 1..Len(ss[k].fields) |-> Bound(ss[k].fields[i])]
-                     # [i \in 1..Len(ExpectedFields(es[k], opts)) |-> ExpectedFields(es[k], opts)[i].bound]
+     ELSE IF \E k \in 1..Len(ss) : ~PosTies(es[k]) /\ ~OrderedElem(es[k], ss[k].fields, opts)
           THEN {"FIELD_ORDER"} ELSE {}
 
 \* C10: derive verbatim on every struct / absent when empty; rename exactly when the bound name differs
@@ -147,10 +147,11 @@ QualifiedOk(name, path) ==
 NameTags(tree, opts, ss) ==
   LET ps == StructPaths(tree, <<>>, opts)
       all == AllPaths(tree, <<>>)
+      owns == [i \in 1..Len(all) |-> ToPascal(all[i][Len(all[i])])]
       Own(p) == ToPascal(p[Len(p)])
-      Single(p) == Cardinality({i \in 1..Len(all) : Own(all[i]) = Own(p)}) = 1
+      Single(p) == LET o == Own(p) IN Cardinality({i \in 1..Len(owns) : owns[i] = o}) = 1
   IN IF Len(ps) # Len(ss) THEN {"STRUCT_COUNT"}
      ELSE (IF \E k \in 1..Len(ss) : ~QualifiedOk(ss[k].name, ps[k]) THEN {"NAME_SHAPE"} ELSE {})
-          \cup (IF \E k \in 1..Len(ss) : Single(ps[k]) /\ ss[k].name # Own(ps[k]) THEN {"NEEDLESS_QUALIFICATION"} ELSE {})
+          \cup (IF \E k \in 1..Len(ss) : ss[k].name # Own(ps[k]) /\ Single(ps[k]) THEN {"NEEDLESS_QUALIFICATION"} ELSE {})
           \cup (IF ss # <<>> /\ ~QualifiedOk(ss[1].name, <<tree.name>>) THEN {"FIRST_NOT_ROOT"} ELSE {})
 =============================================================================
